@@ -52,6 +52,8 @@ pub struct HandshakeParts {
     pub has_key: bool,
     pub cipher_i: Box<dyn Cipher>,
     pub cipher_r: Box<dyn Cipher>,
+    /// Whether Split() has already installed keys in `cipher_i` / `cipher_r` (state after the last message).
+    pub split_done: bool,
     pub s: Box<dyn Dh>,
     pub s_on: bool,
     pub e: Box<dyn Dh>,
@@ -118,7 +120,10 @@ pub fn handshake_from_parts(p: HandshakeParts) -> Option<HandshakeState> {
             p.has_key,
             p.cipher_key,
         ),
-        cipherstates: CipherStates(CipherState::new(p.cipher_i), CipherState::new(p.cipher_r)),
+        cipherstates: CipherStates(
+            CipherState::verif_from_parts(p.cipher_i, 0, p.split_done),
+            CipherState::verif_from_parts(p.cipher_r, 0, p.split_done),
+        ),
         s: toggle(p.s, p.s_on),
         e: toggle(p.e, p.e_on),
         fixed_ephemeral: p.fixed_ephemeral,
